@@ -95,7 +95,7 @@ CLAIMED = {
  "C10": ("exploration",
          "Go race detector (verifrun built with -race -tags verif, GORACE halt_on_error=0 log_path per shard) over generated concurrent client programs per documented type plus the scenario engines of C02/C03/C05/C06/C09/C15; reports are parsed, attributed by the innermost frames of the two accesses and deduplicated by function pair; a tracker records which method pairs were in flight together",
          "k goroutines each run a random sequence from the menu of exported methods of Conn (+ Batches shared between goroutines, also after Close), Writer (WriteMessages/Stats/Close under the C01 fault scripts), Reader with and without group (FetchMessage/ReadMessage/CommitMessages/SetOffset/Offset/Lag/Stats/Close under cuts and error codes), Client and Transport (8 Client methods, raw RoundTrips of 23 APIs, CloseIdleConnections, short idle and metadata TTLs), every built-in Balancer and every compression codec from 32 goroutines. Every deduplicated report in which kafka-go code takes part is a violation. Held on the executions run: the detector only sees accesses that were executed.",
-         "trusted: the Go race detector (no false positives; misses races between accesses that did not both execute); reports whose two accesses are both harness code fail the run as a harness error; the Transport Resolver path and Reader.SetOffsetAt/ReadLag/Config are not driven",
+         "trusted: the Go race detector (no false positives; misses races between accesses that did not both execute); reports whose two accesses are both harness code fail the run as a harness error; Reader.SetOffsetAt/ReadLag/Config are not driven",
          "DESIGN.md section 5 C10"),
  "C19": ("exploration",
          "runtime differential oracle: every value returned by the offset and metadata queries of kafka.Conn and kafka.Client is compared with the generated cluster state installed in the fake cluster (the oracle recomputes expected values from the state, not from the fake brokers' answers); one injected per-partition failure per case",
